@@ -257,11 +257,16 @@ def _spool(ctx, seen, S, B, where, wit):
         ctx.count('spooled_although_within_threshold(observation)')
 
 
+HDR_TEXT = len('Content-Disposition: form-data; name="t"')
+
+
 def sizes_for(L, B):
     if L is None:
         s = {0, 1, B - 1, B, B + 1, 2 * B + 1, 10 * B}
     else:
         s = {0, 1, L - 1, L, L + 1, L + B - 1, L + B, L + B + 1, 10 * L, B, B + 1}
+    # text fields that meet the in-memory budget exactly or with 1..4 bytes to spare (header block + value = B - k)
+    s |= {B - HDR_TEXT - k for k in range(0, 6)}
     return sorted(x for x in s if x >= 0)
 
 
